@@ -117,6 +117,21 @@ func checkC16(cx *Ctx, r *Report) {
 	for _, s := range s1 {
 		by1[s.pred] = s.val
 	}
+	// and the other way round: the binding result is assigned nowhere else (a later "fallback" that replaces the binding
+	// alone pairs the URL of one entry with the binding of another - a pair that is not registered)
+	by0 := map[*ssa.BasicBlock]bool{}
+	for _, s := range s0 {
+		by0[s.pred] = true
+	}
+	for _, s := range s1 {
+		if by0[s.pred] {
+			continue
+		}
+		if cs, ok := constString(s.val); ok && cs == "" {
+			continue
+		}
+		r.Fail("R-SELECT", "site@"+w.InstrPos(s.pred.Instrs[len(s.pred.Instrs)-1])+":pairing", w.InstrPos(s.pred.Instrs[0]), "the binding result is assigned ("+fx.path(s.val)+") in a block where the URL result is not: URL and binding of a reply can come from different entries, a pair that is not registered")
+	}
 	lvf := cx.newVFlow("GetAcsUrlAndBindingForResponse:"+w.FuncKey(fn), fn)
 	helpers := cx.xsBoolHelpers()
 	res0phis := map[ssa.Value]bool{}
@@ -590,4 +605,71 @@ func plainDelegate(fn *ssa.Function) *ssa.Function {
 		}
 	}
 	return g
+}
+
+// checkSelectionPairs (R-SELECT, shared with C02): wherever the consumer-endpoint selection assigns one of its two
+// results it assigns the other from the same list element - in both directions. (C16 checks this inside its stage
+// analysis; C02 needs only this clause: the (URL, binding) pair persisted and used is one registered entry.)
+func (cx *Ctx) checkSelectionPairs(r *Report) {
+	w, fx := cx.W, cx.Fx
+	fn := w.Func("provider.GetAcsUrlAndBindingForResponse")
+	if fn == nil {
+		r.Fail("R-SELECT", "GetAcsUrlAndBindingForResponse", "", "anchor function not found")
+		return
+	}
+	for hops := 0; hops < 3; hops++ {
+		g := plainDelegate(fn)
+		if g == nil {
+			break
+		}
+		fn = g
+	}
+	var s0, s1 []acsSite
+	seen0, seen1 := map[ssa.Value]bool{}, map[ssa.Value]bool{}
+	for _, ret := range returnsOf(fn) {
+		if len(ret.Results) != 2 {
+			r.Undecided("R-SELECT", "GetAcsUrlAndBindingForResponse", w.InstrPos(ret), "expected returns of two results")
+			return
+		}
+		phiSites(ret.Results[0], ret.Block(), seen0, &s0)
+		phiSites(ret.Results[1], ret.Block(), seen1, &s1)
+	}
+	by0, by1 := map[*ssa.BasicBlock]ssa.Value{}, map[*ssa.BasicBlock]ssa.Value{}
+	for _, s := range s0 {
+		by0[s.pred] = s.val
+	}
+	for _, s := range s1 {
+		by1[s.pred] = s.val
+	}
+	bad := ""
+	for _, s := range s0 {
+		o, has := by1[s.pred]
+		if cs, ok := constString(s.val); ok && cs == "" {
+			if has {
+				if c1, ok1 := constString(o); !ok1 || c1 != "" {
+					bad = "an empty URL is paired with a binding at " + w.InstrPos(s.pred.Instrs[0])
+				}
+			}
+			continue
+		}
+		if !has {
+			bad = "the URL result is assigned (" + fx.path(s.val) + ") where the binding result is not, at " + w.InstrPos(s.pred.Instrs[0])
+			continue
+		}
+		sl0, f0 := cx.elemFieldOf(s.val)
+		sl1, f1 := cx.elemFieldOf(o)
+		if sl0 != nil && sl1 != nil && (!sameSlot(sl0, sl1) || f0 != "Location" || f1 != "Binding") {
+			bad = "the two results are not Location and Binding of the same element (" + fx.path(s.val) + " / " + fx.path(o) + ") at " + w.InstrPos(s.pred.Instrs[0])
+		}
+	}
+	for _, s := range s1 {
+		if _, has := by0[s.pred]; has {
+			continue
+		}
+		if cs, ok := constString(s.val); ok && cs == "" {
+			continue
+		}
+		bad = "the binding result is assigned (" + fx.path(s.val) + ") where the URL result is not, at " + w.InstrPos(s.pred.Instrs[0])
+	}
+	r.Check(bad == "", "R-SELECT", "selection:pairs", w.FnPos(fn), "the two results are always assigned together", bad+": URL and binding of a reply can come from different entries - a pair that is not registered")
 }
